@@ -464,3 +464,30 @@ pub(crate) fn lib_collect_counts_the_execution_even_when_it_unwinds() {
     kani::assert(!sn.collecting && !sn.finalizing && !sn.dropping, "collect::unwind::collecting_false");
     core::mem::forget(h);
 }
+
+/// drop_inner with a side record: the record (weak count AND accessible bit) is not touched — the
+/// box is still allocated after drop_inner, so the record must keep saying so (the hand-over to the
+/// Weaks happens in drop_metadata, after the layout was read).
+//@ C03 C08 C09 | complete | deciding | feat=full,finweak | fn=CcBox::drop_inner | timeout=600
+#[cfg(feature = "weak-ptrs")]
+#[kani::proof]
+#[kani::unwind(9)]
+pub(crate) fn lib_drop_inner_keeps_side_record() {
+    let h = ccp::mk_node(0);
+    let x = ccp::raw_of(&h);
+    let m = h.inner().get_or_init_metadata();
+    ccp::md::normalise_record_ptr(unsafe { ccp::REG[0].unwrap() }, m);
+    let k: u16 = kani::any();
+    kani::assume(k <= 32767);
+    ccp::md::set_wword(m, 0x8000 | k);
+    let t0: u16 = kani::any();
+    kani::assume((t0 & 0x3fff) != 0x3fff);
+    let c0 = 0x8000 | 0x4000 | 2;
+    ccp::set_words_of(x, t0, c0);
+    state(|s| sp::set_flags(s, true, false, true));
+    unsafe { CcBox::drop_inner(x) };
+    kani::assert(g().n_drop == 1, "CcBox::drop_inner::post::destructor_called_once");
+    kani::assert(ccp::md::wword(m) == 0x8000 | k, "CcBox::drop_inner::frame::side_record_count_and_accessible_bit");
+    kani::assert(ccp::words_of(x).1 == c0 && ccp::md::md_of(x) == Some(m), "CcBox::drop_inner::frame::reference_counter_word");
+    core::mem::forget(h);
+}
